@@ -203,11 +203,224 @@ theorem inv_run_cas (P : Params) (pre : Store) (σ : List Sch) (c : Cfg)
   | nil => exact h
   | cons s σ ih => exact ih (step P c s) (inv_step_cas P pre c s hcas hrn h)
 
-theorem holds_of_inv (P : Params) (pre : Store) (c : Cfg) (h : Inv P pre c) :
+/-! ### release discipline (`heldReplay`): independent of the path and of faults -/
+
+/-- Whatever a thread believes it owns is a hand-out to it that it has not released, and no
+release-own so far was a second release. -/
+def InvH (c : Cfg) : Prop :=
+  (heldReplay c.trace).2 = true ∧
+  ∀ tid k, (c.threads tid).own = some k → (tid, k) ∈ (heldReplay c.trace).1
+
+theorem heldReplay_snoc (tr : List Ev) (e : Ev) : heldReplay (tr ++ [e]) = heldStep (heldReplay tr) e := by
+  simp [heldReplay, List.foldl_append]
+
+def plainEv : Ev → Bool
+  | .ok _ _ _ => false
+  | .relo _ _ _ => false
+  | _ => true
+
+theorem heldReplay_plain (tr evs : List Ev) (h : evs.all plainEv = true) :
+    heldReplay (tr ++ evs) = heldReplay tr := by
+  induction evs generalizing tr with
+  | nil => simp
+  | cons e r ih =>
+    simp only [List.all_cons, Bool.and_eq_true] at h
+    have : tr ++ e :: r = (tr ++ [e]) ++ r := by simp
+    rw [this, ih _ h.2, heldReplay_snoc]
+    cases e <;> simp [plainEv] at h <;> rfl
+
+theorem own_upd (ts : Nat → Thread) (tid : Nat) (t' : Thread)
+    (ho : ∀ k, t'.own = some k → (ts tid).own = some k) :
+    ∀ j k, (upd ts tid t' j).own = some k → (ts j).own = some k := by
+  intro j k hj
+  by_cases e : j = tid
+  · subst e; rw [upd_self] at hj; exact ho k hj
+  · rw [upd_ne _ _ _ _ e] at hj; exact hj
+
+/-- A step that reports neither a hand-out nor a release-own and gives no thread a new belief. -/
+theorem invH_plain (c c' : Cfg) (evs : List Ev) (ht : c'.trace = c.trace ++ evs)
+    (hp : evs.all plainEv = true)
+    (hown : ∀ j k, (c'.threads j).own = some k → (c.threads j).own = some k)
+    (h : InvH c) : InvH c' := by
+  unfold InvH at *
+  rw [ht, heldReplay_plain _ _ hp]
+  exact ⟨h.1, fun j k hj => h.2 j k (hown j k hj)⟩
+
+theorem invH_ok (c : Cfg) (tid kind id : Nat) (t : Thread) (store' : Store) (locks' : List Nat)
+    (h : InvH c) :
+    InvH { c with store := store', locks := locks',
+                  threads := upd c.threads tid { finishOp t with own := some (kind, id) },
+                  trace := c.trace ++ [.ok tid kind id] } := by
+  unfold InvH at *
+  simp only
+  rw [heldReplay_snoc]
+  refine ⟨h.1, ?_⟩
+  intro j k hj
+  by_cases e : j = tid
+  · subst e
+    rw [upd_self] at hj
+    simp only [Option.some.injEq] at hj
+    subst hj
+    simp [heldStep]
+  · rw [upd_ne _ _ _ _ e] at hj
+    simp only [heldStep]
+    exact List.mem_cons_of_mem _ (h.2 j k hj)
+
+theorem invH_relo (c : Cfg) (tid : Nat) (k : Key) (t' : Thread) (store' : Store)
+    (hk : (c.threads tid).own = some k) (hn : t'.own = none) (h : InvH c) :
+    InvH { c with store := store', threads := upd c.threads tid t',
+                  trace := c.trace ++ [.relo tid k.1 k.2] } := by
+  unfold InvH at *
+  simp only
+  rw [heldReplay_snoc]
+  have hm := h.2 tid k hk
+  refine ⟨by simp [heldStep, h.1, hm], ?_⟩
+  intro j k' hj
+  by_cases e : j = tid
+  · subst e; rw [upd_self, hn] at hj; cases hj
+  · rw [upd_ne _ _ _ _ e] at hj
+    simp only [heldStep]
+    have hne : (j, k') ≠ (tid, (k.1, k.2)) := fun x => e (by injection x)
+    exact (List.mem_erase_of_ne hne).mpr (h.2 j k' hj)
+
+theorem failThread_own (P : Params) (kind a : Nat) (t : Thread) : (failThread P kind a t).own = t.own := by
+  unfold failThread; split <;> rfl
+
+theorem failEvs_plain (P : Params) (tid kind a : Nat) : (failEvs P tid kind a).all plainEv = true := by
+  unfold failEvs; split <;> rfl
+
+theorem invH_failCfg (P : Params) (c : Cfg) (tid kind a : Nat) (h : InvH c) :
+    InvH (failCfg P c tid kind a (c.threads tid)) :=
+  invH_plain c _ (failEvs P tid kind a) rfl (failEvs_plain P tid kind a)
+    (own_upd _ _ _ (fun k hk => by rw [failThread_own] at hk; exact hk)) h
+
+theorem invH_stepThread (P : Params) (c : Cfg) (tid : Nat) (h : InvH c) : InvH (stepThread P c tid) := by
+  unfold stepThread
+  split
+  · exact h
+  · exact invH_plain c _ [_] rfl rfl (own_upd _ _ _ (fun k hk => hk)) h
+  · split
+    · exact invH_plain c _ [_] rfl rfl (own_upd _ _ _ (fun k hk => hk)) h
+    · rename_i k hk
+      exact invH_relo c tid k _ _ hk rfl h
+  · split
+    · exact invH_plain c _ [_] rfl rfl (own_upd _ _ _ (fun k hk => hk)) h
+    · exact invH_plain c _ [_] rfl rfl (own_upd _ _ _ (fun k hk => hk)) h
+  · split
+    · split
+      · split
+        · exact invH_failCfg P c tid _ _ h
+        · exact invH_ok c tid _ _ _ _ _ h
+      · split
+        · exact h
+        · split
+          · exact invH_failCfg P c tid _ _ h
+          · exact invH_plain c _ [] (by simp) rfl (own_upd _ _ _ (fun k hk => hk)) h
+    · split
+      · exact h
+      · exact invH_ok c tid _ _ _ _ _ h
+
+theorem invH_stepFault (P : Params) (c : Cfg) (tid : Nat) (h : InvH c) : InvH (stepFault P c tid) := by
+  unfold stepFault
+  split
+  · exact h
+  · exact invH_plain c _ [_] rfl rfl (own_upd _ _ _ (fun k hk => hk)) h
+  · split
+    · exact invH_plain c _ [_] rfl rfl (own_upd _ _ _ (fun k hk => hk)) h
+    · exact invH_plain c _ [_] rfl rfl (own_upd _ _ _ (fun k hk => by cases hk)) h
+  · split
+    · exact invH_plain c _ [_] rfl rfl (own_upd _ _ _ (fun k hk => hk)) h
+    · exact invH_plain c _ [_] rfl rfl (own_upd _ _ _ (fun k hk => hk)) h
+  · split
+    · split
+      · exact invH_failCfg P c tid _ _ h
+      · split
+        · exact h
+        · exact invH_failCfg P c tid _ _ h
+    · split
+      · exact h
+      · rename_i kind _ _ _ _ a _ _
+        have := invH_failCfg P c tid kind a h
+        unfold InvH at *
+        exact this
+
+theorem held_good_mono (tr : List Ev) (s : Held × Bool) (h : (tr.foldl heldStep s).2 = true) :
+    s.2 = true := by
+  induction tr generalizing s with
+  | nil => exact h
+  | cons e r ih =>
+    have := ih (heldStep s e) h
+    cases e <;> simp [heldStep] at this <;> first | exact this | exact this.1
+
+/-- While the discipline holds: (entries of `x` in the held list) + (release-owns of `x`) =
+(entries at the start) + (hand-outs of `x`). -/
+theorem held_count (x : Nat × Key) (tr : List Ev) (s : Held × Bool)
+    (hg : (tr.foldl heldStep s).2 = true) :
+    s.2 = true ∧
+    (tr.foldl heldStep s).1.count x + tr.countP (· == .relo x.1 x.2.1 x.2.2) =
+      s.1.count x + tr.countP (· == .ok x.1 x.2.1 x.2.2) := by
+  induction tr generalizing s with
+  | nil => exact ⟨hg, by simp⟩
+  | cons e r ih =>
+    simp only [List.foldl_cons] at hg ⊢
+    obtain ⟨hs, hc⟩ := ih (heldStep s e) hg
+    generalize List.foldl heldStep (heldStep s e) r = F at hc hg ⊢
+    obtain ⟨t, k, i⟩ := x
+    cases e with
+    | ok t' k' i' =>
+      simp only [heldStep] at hs hc
+      refine ⟨hs, ?_⟩
+      simp only [List.countP_cons, List.count_cons] at hc ⊢
+      by_cases hx : t' = t ∧ k' = k ∧ i' = i
+      · obtain ⟨rfl, rfl, rfl⟩ := hx; simp at hc ⊢; omega
+      · have h1 : ((t', k', i') == (t, k, i)) = false := by
+          simp only [beq_eq_false_iff_ne, ne_eq, Prod.mk.injEq]; exact hx
+        have h2 : (Ev.ok t' k' i' == Ev.ok t k i) = false := by
+          simp only [beq_eq_false_iff_ne, ne_eq, Ev.ok.injEq]; exact hx
+        simp [h1, h2] at hc ⊢; omega
+    | relo t' k' i' =>
+      simp only [heldStep, Bool.and_eq_true, decide_eq_true_eq] at hs hc
+      refine ⟨hs.1, ?_⟩
+      simp only [List.countP_cons] at hc ⊢
+      by_cases hx : t' = t ∧ k' = k ∧ i' = i
+      · obtain ⟨rfl, rfl, rfl⟩ := hx
+        have hpos := List.count_pos_iff.mpr hs.2
+        rw [List.count_erase_self] at hc
+        simp at hc ⊢; omega
+      · have h1 : (t, k, i) ≠ (t', k', i') := by
+          simp only [ne_eq, Prod.mk.injEq]; exact fun ⟨a, b, c⟩ => hx ⟨a.symm, b.symm, c.symm⟩
+        have h2 : (Ev.relo t' k' i' == Ev.relo t k i) = false := by
+          simp only [beq_eq_false_iff_ne, ne_eq, Ev.relo.injEq]; exact hx
+        rw [List.count_erase_of_ne h1] at hc
+        simp [h2] at hc ⊢; omega
+    | exh _ _ => exact ⟨hs, by simpa [heldStep] using hc⟩
+    | rel _ _ _ => exact ⟨hs, by simpa [heldStep] using hc⟩
+    | rnw _ _ _ => exact ⟨hs, by simpa [heldStep] using hc⟩
+    | nop _ => exact ⟨hs, by simpa [heldStep] using hc⟩
+    | err _ => exact ⟨hs, by simpa [heldStep] using hc⟩
+    | tick _ => exact ⟨hs, by simpa [heldStep] using hc⟩
+
+theorem invH_run (P : Params) (σ : List Sch) (c : Cfg) (h : InvH c) : InvH (run P c σ) := by
+  induction σ generalizing c with
+  | nil => exact h
+  | cons s σ ih =>
+    apply ih
+    cases s with
+    | step tid => exact invH_stepThread P c tid h
+    | fault tid => exact invH_stepFault P c tid h
+    | tick dt => exact invH_plain c _ [_] rfl rfl (fun _ _ hk => hk) h
+
+theorem invH_init (pre : Store) (progs : List (Nat × List Op)) : InvH (init pre progs) := by
+  refine ⟨rfl, ?_⟩
+  intro tid k hk
+  simp only [init, mkThreads] at hk
+  split at hk <;> simp [mkThread] at hk
+
+theorem holds_of_inv (P : Params) (pre : Store) (c : Cfg) (h : Inv P pre c) (hh : InvH c) :
     holds P.ttl pre c.trace (liveKeys c.store c.now) = true := by
   unfold holds
   rw [h]
-  simp [viewOk_liveKeys]
+  simp [viewOk_liveKeys, hh.1]
 
 
 /-- Every step either leaves the store alone or reports an event that is not an exhaustion. -/
@@ -266,6 +479,11 @@ theorem still_live (ttl : Nat → Nat) (k : Key) (t0 : Nat) (mid : List Ev) (s :
     | nop t => exact ih _ hq.2 ht0 ⟨e, hl, he, hz⟩ (by simpa [specStep, elapsed] using hel) hg
     | err t => exact ih _ hq.2 ht0 ⟨e, hl, he, hz⟩ (by simpa [specStep, elapsed] using hel) hg
     | rel t kind id =>
+      have hne : k ≠ (kind, id) := by
+        have := hq.1; simp [quiet] at this; exact fun x => this x.symm
+      exact ih _ hq.2 (by simpa [specStep] using ht0)
+        ⟨e, by simp [specStep, lookup_erase_ne _ _ _ hne, hl], he, hz⟩ (by simpa [specStep, elapsed] using hel) hg
+    | relo t kind id =>
       have hne : k ≠ (kind, id) := by
         have := hq.1; simp [quiet] at this; exact fun x => this x.symm
       exact ih _ hq.2 (by simpa [specStep] using ht0)
